@@ -292,6 +292,7 @@ def ref_gmres(A, B, X0, m, tol, dtype, flags, solve=True):
     whether a case is numerically stable enough for a tolerance comparison and to locate the regions recorded defects spoil
     (it depends on the inputs only, never on cola's output)."""
     fl = model_flags(flags)
+    mfac = 10 * tol if flags.get("gmres_mask_tol", True) else 10 * 2.220446049250313e-16       # relative cut-off of the padding mask
     A, B, X0 = A.astype(dtype), B.astype(dtype), X0.astype(dtype)
     n, nc = B.shape
     mb = m if fl["arnoldi_padding"] else min(m, n)
@@ -345,7 +346,7 @@ def ref_gmres(A, B, X0, m, tol, dtype, flags, solve=True):
     masked_genuine = []
     for c in range(nc):
         largest = np.max(np.abs(Hm[c]), -1) if sq else np.max(np.abs(Hm[c]), 0)
-        thresh = 10 * tol * (np.max(largest) if largest.size else 0)
+        thresh = mfac * (np.max(largest) if largest.size else 0)
         colmax = np.max(np.abs(H[c]), 0) if mb > 0 else np.zeros(0)
         masked_genuine.append(bool(np.any((largest <= thresh)[:idx] & (colmax[:idx] > 1e-13 * (hmax[c] if hmax[c] > 0 else 1)))) if not sq else False)
     diag = dict(steps=idx, overrun=[bool(v) for v in overrun], lastsub=[float(v) for v in lastsub],
@@ -359,7 +360,7 @@ def ref_gmres(A, B, X0, m, tol, dtype, flags, solve=True):
         Hc = Hm[c]
         HT = np.conj(Hc.T)
         largest = np.max(np.abs(Hc), -1) if sq else np.max(np.abs(Hc), 0)
-        thresh = 10 * tol * np.max(largest)
+        thresh = mfac * np.max(largest)
         margins.append(float(np.min(np.abs(largest - thresh) / max(float(thresh), 1e-300))) if thresh > 0 else 1.0)
         decisions.append((np.array(largest, dtype=np.longdouble), np.full(len(largest), thresh, dtype=np.longdouble)))
         pad = (largest < thresh) if fl["gmres_zero_residual_nan"] else (largest <= thresh)
